@@ -5,6 +5,8 @@ pub fn run(ctx: &Ctx) -> Report {
     let mut rep = Report::new("every object of the family (base/label/block-layout/fence/fault/link-family/2-statement programs assembled with and without debug symbols under 3 styles; every successful link of 2 and 3 link-family members; links mixing debug and non-debug members; the empty object) plus objects assembled from hostile source texts (<=3 (thorough 4) tokens over quotes, backslash, TAB, CR, control, non-ASCII, ' | ', '====', '#', '.TEXT', NUL, digits and letters that continue an escape (7, n, u{41}, x41), U+2028, empty and whitespace-only lines; 3 layouts): BinaryFormat::deserialize(serialize(o)) == Some(o) by the derived equality (image, labels, external flags, relocations, line map, source). non-trivial = object carrying a symbol table");
     objrt::run_family(ctx, &mut rep, false);
     objrt::run_hostile(ctx, &mut rep, false);
+    // life cycle: every 11th object's round trip again right after the reader was given a damaged copy of it on the same thread (14 kinds of damage)
+    objrt::run_after_failed_reads(ctx, &mut rep, false);
     rep.require(rep.acc.get("linked_objects") > 100 && rep.acc.get("assembled_objects") > 300, "assembled and linked objects explored");
     rep
 }
